@@ -17,13 +17,9 @@ import WuffsVerif.Proof.IntervalOps
 namespace WuffsVerif.Props.C06
 open WuffsVerif.Interval
 
-/-- the set of concrete results `{f x y | x ∈ X, y ∈ Y}` -/
-def Img (f : Int → Int → Int) (X Y : IR) (v : Int) : Prop :=
-  ∃ x y, X.mem x ∧ Y.mem y ∧ f x y = v
-
-/-- `Z` is exactly the hull of the concrete results: finite, sound, and both bounds attained -/
-def TightHull (f : Int → Int → Int) (X Y Z : IR) : Prop :=
-  ∃ l h, Z = ⟨some l, some h⟩ ∧ Img f X Y l ∧ Img f X Y h
+/-! `Img f X Y v` : `v = f x y` for some members `x ∈ X`, `y ∈ Y`.
+`TightHull f X Y Z` : `Z = [l, h]` with both `l` and `h` in `Img f X Y`
+(definitions in `Proof/IntervalBasic.lean`). -/
 
 /-- a member exists ⇒ the interval is not `Empty()`. -/
 theorem not_empty_of_mem (X : IR) (x : Int) (h : X.mem x) : X.empty = false :=
@@ -323,6 +319,21 @@ theorem lsh_fails_iff_rsh_fails (X Y : IR) : tryLsh X Y = none ↔ tryRsh X Y = 
   · rintro ⟨h, y, hy, h0⟩; exact ⟨h, Interval.not_empty_of_mem hy, y, hy, h0⟩
   · rintro ⟨h, _, h'⟩; exact ⟨h, h'⟩
 
+/-- pair form: `TryLsh` fails iff some pair `(x, y)` has a negative shift count -/
+theorem lsh_fails_iff_pair (X Y : IR) :
+    tryLsh X Y = none ↔ ∃ x y, X.mem x ∧ Y.mem y ∧ y < 0 := by
+  rw [lsh_fails_iff]
+  constructor
+  · rintro ⟨ex, y, hy, h0⟩
+    obtain ⟨x, hx⟩ := exists_mem_of_not_empty ex
+    exact ⟨x, y, hx, hy, h0⟩
+  · rintro ⟨x, y, hx, hy, h0⟩
+    exact ⟨Interval.not_empty_of_mem hx, y, hy, h0⟩
+
+theorem rsh_fails_iff_pair (X Y : IR) :
+    tryRsh X Y = none ↔ ∃ x y, X.mem x ∧ Y.mem y ∧ y < 0 := by
+  rw [← lsh_fails_iff_rsh_fails, lsh_fails_iff_pair]
+
 /-! ## 3. empty in, empty out -/
 
 theorem add_empty (X Y : IR) (h : X.empty = true ∨ Y.empty = true) : (add X Y).empty = true := by
@@ -403,6 +414,18 @@ example : (⟨some 3, some 1⟩ : IR).empty = true := by decide
 
 /-! ## 4. tightness: with four finite bounds and non-empty operands, both result bounds are
 attained, so (with soundness) the result is exactly the hull of `{x op y}`. -/
+
+/-- what "tightest" means: a `TightHull` result is contained in every interval that is sound for
+the same operands (so, with soundness, it is the least sound interval). -/
+theorem tightHull_minimal {f : Int → Int → Int} {X Y Z Z' : IR} (h : TightHull f X Y Z)
+    (hs : ∀ x y, X.mem x → Y.mem y → Z'.mem (f x y)) : ∀ v, Z.mem v → Z'.mem v := by
+  obtain ⟨l, hh, rfl, ⟨a, b, ha, hb, rfl⟩, ⟨c, d, hc, hd, rfl⟩⟩ := h
+  intro v hv
+  have h1 := hs a b ha hb
+  have h2 := hs c d hc hd
+  obtain ⟨zl, zh⟩ := Z'
+  simp only [mem_mk, loLe_some, leHi_some] at hv
+  cases zl <;> cases zh <;> simp_all [mem_mk] <;> omega
 
 section tight
 variable (X Y : IR) {xl xh yl yh : Int}
